@@ -7,6 +7,7 @@ use crate::server::types::*;
 use crate::types::*;
 use crate::shims::scursor::ReadCursor;
 use crate::be16;
+use crate::decode::AppDecodeLevel;
 
 //@item rodbus/src/server/request.rs | Request | derive=
 //@item rodbus/src/server/request.rs | BroadcastRequest | derive=
@@ -126,4 +127,15 @@ impl<'a> Request<'a> {
 //@|        r is Ok ==> spec_parse_request(function, old(cursor).rest()) == Some(r->Ok_0@),
 //@exit 6| if r__ is Ok { lemma_spec_req_eq(spec_parse_request(function, old(cursor).rest())->Some_0, r__->Ok_0@); }
 //@exit 7| if r__ is Ok { lemma_spec_req_eq(spec_parse_request(function, old(cursor).rest())->Some_0, r__->Ok_0@); }
+}
+
+// [C07,C20] the server-side request decoding for the log: for a request that came out of Request::parse, rendering it at any level
+// iterates only values that exist (no panic, no overflow); what is printed is opaque (R28)
+//@item rodbus/src/server/request.rs | RequestDisplay
+impl<'a, 'b> RequestDisplay<'a, 'b> {
+//@fn rodbus/src/server/request.rs | RequestDisplay<'a,'b>::new | tags=C07,C20
+//@|    requires request.wf(),
+//@|    ensures r.request == request, r.level == level,
+//@fn rodbus/src/server/request.rs | std::fmt::Display for RequestDisplay<'_,'_>::fmt | tags=C07,C20 | inherent r28 r10 r10id=0,1,2,3,4,5,6,7,8
+//@|    requires self.request.wf(),
 }
